@@ -231,6 +231,30 @@ def main():
             if len(f["violations"]) < 2:
                 f["violations"].append(dict(scenario={k: sc[k] for k in ("classes", "methods", "call")}, **d))
                 f["replay_cmd"] = ["c02_oracle.py", "scenario", json.dumps({k: sc[k] for k in ("classes", "methods", "call")})]
+    # resolve() names the same method the call would run, also for class-valued arguments (known finding F-resolvekey)
+    class Meta(type):
+        pass
+
+    class K(metaclass=Meta):
+        pass
+
+    ov = Ovld(name="r")
+
+    def on_meta(x: Meta):
+        return "meta"
+
+    ov.register(on_meta)
+    n += 1
+    try:
+        called = ov(K)
+    except TypeError as e:
+        called = str(e)[:20]
+    try:
+        resolved = ov.resolve(K)(K)
+    except TypeError as e:
+        resolved = "TypeError:" + str(e)[:20]
+    if called != resolved:
+        failing["known_resolvekey.resolve_agrees_for_class_valued_arguments"] = dict(name="known_resolvekey.resolve_agrees_for_class_valued_arguments", n_violations=1, violations=[dict(call=called, resolve=resolved)])
     print(json.dumps(dict(evaluations=n, failing=list(failing.values()))))
     return 1 if failing else 0
 
